@@ -60,6 +60,8 @@ def param_set(rng: np.random.Generator) -> dict:
             "temperature_pseudocritical": float(rng.uniform(-115.0, -45.0)),
             "pressure_pseudocritical": float(rng.uniform(600.0, 720.0)),
         }
+        if rng.random() < 0.12:
+            a["temperature_pseudocritical"] = 0.0   # a heavy gas: 0 deg F (459.67 R) is a pseudocritical temperature like any other
         n = int(rng.integers(3, 7))
         p = np.sort(rng.uniform(120.0, 9000.0, n))
         shared = bool(rng.random() < 0.3)
